@@ -290,6 +290,13 @@ func TestVerifDriver(t *testing.T) {
 			s := enc5(hrp, syms)
 			dec(s)
 			dec(upperASCII(s))
+			// one part (hrp / data / checksum) in the other case
+			cut := []int{len(hrp), len(hrp) + 1 + ns}[r.Intn(2)]
+			if r.Intn(2) == 0 {
+				dec(upperASCII(s[:cut]) + s[cut:])
+			} else {
+				dec(s[:cut] + upperASCII(s[cut:]))
+			}
 			b := []byte(s)
 			switch k % 8 {
 			case 0: // substitution by a charset character
